@@ -500,6 +500,36 @@ def call_variant(S, variant, route, nproc, u, sig, style='assign', decoys=True, 
         del keep
 
 
+def mixed_route_fails(opts, sig=0):
+    """second-layer sift handed a get_func() partial of an UNTOUCHED (all-default) configuration as sift_func AND the options under
+    test as keyword dictionaries in sift_args: the explicit dictionaries must govern, i.e. the result equals the plain keyword
+    route (a default configuration pins exactly the signature defaults - C18).  returns [(site, detail, input)]"""
+    import emd.sift as S
+    fails = []
+    IA = first_layer(sig)
+    for oname, u0 in opts:
+        u = {b: build(canon(u0[b])) for b in BUNDLES}
+        if not any(u[b] for b in BUNDLES):
+            continue
+        base = base_kwargs('sift_second_layer', 1, sig)
+        try:
+            with common.time_limit(60), warnings.catch_warnings():
+                warnings.simplefilter('ignore')
+                want = S.sift_second_layer(IA, sift_args=dict(base, **given(u)))
+                got = S.sift_second_layer(IA, sift_func=S.get_config('sift').get_func(), sift_args=dict(base, **given(u)))
+                same = np.asarray(got).shape == np.asarray(want).shape and np.array_equal(got, want, equal_nan=True)
+        except common.Timeout:
+            continue
+        except Exception as e:                                          # noqa
+            same, got, want = False, 'raised %s: %s' % (type(e).__name__, e), None
+        if not same:
+            fails.append(('emd/sift.py:sift_second_layer', 'options %s given as keyword dictionaries in sift_args together with sift_func = '
+                          'get_config(\'sift\').get_func() (an untouched configuration): the result differs from the same dictionaries with the '
+                          'default sift_func%s' % ({b: plain(canon(u0[b])) for b in BUNDLES if u[b]}, '' if want is not None else ' (%s)' % got),
+                          dict(mixed_route=oname, signal=sig)))
+    return fails
+
+
 # --------------------------------------------------------------------------- the same decomposition assembled by hand
 def explicit_sift(S, x, u, max_imfs, sift_thresh=1e-8):
     gni = _ORIG.get('G') or S.get_next_imf
@@ -975,7 +1005,7 @@ def run(ctx):
                 'option case (nothing, three empty dicts, one non-default value for each of stop_method, env_step_size, sd_thresh, '
                 'rilling_thresh, max_iters, energy_thresh, interp_method, pad_width, parabolic_extrema, loc_pad_opts, mag_pad_opts, and '
                 'all of them at once; thorough adds pchip and the fixed stop rule) x route (keyword dicts, SiftConfig unpacking, get_func '
-                'partial; np.pad dictionaries assigned whole and edited entry by entry; keyword dictionaries fresh, or used a moment before in a plain sift with other extrema options) x nprocesses, on %d-sample signals; before and after the '
+                'partial, and for the second-layer sift a default get_func() partial TOGETHER WITH keyword dictionaries; np.pad dictionaries assigned whole and edited entry by entry; keyword dictionaries fresh, or used a moment before in a plain sift with other extrema options) x nprocesses, on %d-sample signals; before and after the '
                 'configuration under test is set up, decoy SiftConfigs (same and another variant) are given different values for every '
                 'option and never run.  A case is the real call under recording wrappers; it is non-trivial when '
                 'all five stage calls (get_next_imf, interp_envelope upper/lower, get_padded_extrema peaks/troughs) were recorded and, for '
@@ -983,6 +1013,11 @@ def run(ctx):
     ctx.proof(extra=['props/Prop_Tie_Options.v', 'props/Prop_Tie_Parab.v'])  # translation tie: program regenerated from the source + refinement theorems
     cases, grid = make_cases(ctx)
     ctx.extra['grid'] = grid
+    # mixed delivery route of the second-layer sift (oracle only)
+    mopts = option_cases(N)
+    for site, detail, inp in mixed_route_fails(mopts if not ctx.quick() else mopts[:14])[:1]:
+        ctx.problem('impl-violation', site, detail, input=inp, tags=dict(variant='sift_second_layer', route='partial+keyword'))
+    ctx.hist['mixed-route-option-cases'] += len(mopts if not ctx.quick() else mopts[:14])
     # model: one evaluation per (variant, route, options) - nprocesses and the signal are not inputs of the plumbing
     mkeys, mlits = {}, []
     for c in cases:
@@ -1060,10 +1095,18 @@ def run(ctx):
     ctx.notes.append('model evaluations: %d distinct (variant, route, options); implementation runs: %d' % (len(mlits), len(cases)))
 
 
+def _replay_mixed(i):
+    f = mixed_route_fails([o for o in option_cases(N) if o[0] == i['mixed_route']], i.get('signal', 0))
+    print(f[:1])
+    return bool(f)
+
+
 def replay(rec):
     """Re-run the recorded sequence (decoy configurations, configuration style, variant, options, route, nprocesses, signal):
     True iff the same site still loses the option."""
     import tempfile
+    if 'mixed_route' in rec['input']:
+        return _replay_mixed(rec['input'])
     if rec['input'].get('check') == 'pad-rounds':
         import emd.sift as S
         v, rounds, detail = pad_case(S, rec['input'])
